@@ -53,8 +53,7 @@ func constKeys(v ssa.Value) ([]string, bool) {
 
 func runC05(c *Ctx) {
 	p := c.P
-	entry := serveHTTP(p)
-	reach := p.Reach(entry)
+	reach := p.RequestTimeReach()
 
 	c.Rule("C05.1", "header maps are changed only under constant control keys or by key-preserving relocation of ranged entries", 40)
 	c.Rule("C05.2", "extracting relocations delete every moved key from the live source map in the same iteration", 2)
